@@ -1799,10 +1799,10 @@ def resolve_imaginary(dt):
     """
     if dt.tzinfo is not None and not datetime_exists(dt):
 
-        curr_offset = (dt + datetime.timedelta(hours=24)).utcoffset()
-        old_offset = (dt - datetime.timedelta(hours=24)).utcoffset()
-
-        dt += curr_offset - old_offset
+        # The width of the gap is how far a trip through UTC moves the wall
+        # time (whichever side of the gap the zone reads imaginary times from)
+        dt_rt = dt.astimezone(UTC).astimezone(dt.tzinfo)
+        dt += abs(dt.replace(tzinfo=None) - dt_rt.replace(tzinfo=None))
 
     return dt
 
